@@ -413,3 +413,6 @@ Proof.
 Qed.
 
 End DL.
+
+Arguments blocked_lo {id} s t.
+Arguments holdsP {id} s u r.
